@@ -7,7 +7,7 @@
 (* and every logged snapshot must equal, as an ordered list, the snapshot   *)
 (* the model computes for that recorder (histogram values as a bag).        *)
 (* All invariants of DebugSnapshot.tla are checked in every state.          *)
-EXTENDS DebugSnapshot, Json, IOUtils, TLCExt
+EXTENDS DebugSnapshot, DrainCheck, Json, IOUtils, TLCExt
 VARIABLE l
 Rec == ndJsonDeserialize(IOEnv.TRACE)
 tvars == <<vars, l>>
@@ -24,6 +24,22 @@ M(e) == <<e.k, e.n, e.l>>
 Logged(sn) == [i \in 1..Len(sn) |->
                  [ k |-> sn[i].k, n |-> sn[i].n, l |-> sn[i].l, u |-> sn[i].u, d |-> sn[i].d,
                    v |-> sn[i].v, hv |-> SeqToBag(sn[i].hv) ]]
+
+\* concurrent snapshots of one histogram on the real recorder (harness mode `drains`): values 1..recorded were
+\* recorded (all distinct), snaps = contents of every snapshot taken, including the final ones after quiescence.
+\* Never a value twice, never an invented one.  strict (no record() overlapped a snapshot): every value exactly
+\* once.  Otherwise a value in no snapshot can only be the inherited bucket deviation CF05a (SnapshotDrain.tla
+\* lateLost); without a total order of the real-parallel run it cannot be told apart, so it is reported as the
+\* known finding when that is listed for this property and not asserted otherwise -- except for the bound the
+\* deviation obeys: at most one value per recording thread per snapshot (SnapshotDrain.tla LateLostBound).
+DrainOK(e) ==
+  LET rec == 1..e.recorded
+      miss == Missing(rec, e.snaps) IN
+  /\ NoValueTwice(e.snaps)
+  /\ NothingInvented(rec, e.snaps)
+  /\ IF e.strict THEN miss = {}
+     ELSE /\ Cardinality(miss) <= e.nsnaps * e.writers
+          /\ IF miss # {} /\ e.listed THEN PrintT(<<"KNOWN", "CF05a", Cardinality(miss)>>) ELSE TRUE
 
 TraceNext ==
   /\ l <= Len(Rec)
@@ -43,6 +59,7 @@ TraceNext ==
        \* a real-parallel round at quiescence: n threads registered the same metric as c, g, h on one fresh
        \* recorder and updated once each; the snapshot must account for every update
        [] Ev = "round"    -> Obs(E.n >= 1 /\ Logged(E.snap) = RoundSnapshot(E.n, E.nm, E.l))
+       [] Ev = "drain"    -> Obs(DrainOK(E))
        [] Ev = "note"     -> Obs(TRUE)
        [] OTHER -> FALSE      \* panic / unknown event: not a behaviour
 
